@@ -402,3 +402,259 @@ theorem expandLoop_fst_indep (src : Prog) (fuel : Nat) :
 end
 
 end QV.C17
+
+namespace QV.C17
+open QV QV.Ast
+
+/-! ### the code's substitution against the generic traversals -/
+
+theorem bindQ_cons (cq gq : Qubit) (cqs gqs : List Qubit) (n : String) :
+    bindQ (cq :: cqs) (gq :: gqs) n =
+      (bindQ cqs gqs n).or (if cq = .variable n then some gq else none) := by
+  simp only [bindQ, List.zip_cons_cons, List.reverse_cons, List.find?_append]
+  cases h : List.find? (fun p => decide (p.1 = Qubit.variable n)) (cqs.zip gqs).reverse with
+  | some p => simp
+  | none =>
+    by_cases hc : cq = .variable n <;> simp [hc]
+
+theorem lookup_qubitExpansions (cqs gqs : List Qubit) (acc : List (String × Qubit)) (n : String) :
+    (qubitExpansions cqs gqs acc).lookup n = (bindQ cqs gqs n).or (acc.lookup n) := by
+  induction cqs generalizing gqs acc with
+  | nil => simp [qubitExpansions, bindQ]
+  | cons cq cqs ih =>
+    cases gqs with
+    | nil => cases cq <;> simp [qubitExpansions, bindQ]
+    | cons gq gqs =>
+      rw [bindQ_cons]
+      rcases cq with k | k | name
+      · simp [qubitExpansions, ih]
+      · simp [qubitExpansions, ih]
+      · simp only [qubitExpansions, ih, List.lookup_cons]
+        by_cases hn : n = name
+        · subst hn; cases bindQ cqs gqs n <;> simp
+        · have : ¬ (Qubit.variable name = Qubit.variable n) := by
+            intro h; injection h with h; exact hn h.symm
+          have hb : (n == name) = false := by simp [hn]
+          cases bindQ cqs gqs n <;> simp [hb, this]
+
+theorem bindP_cons (cp gp : PExpr) (cps gps : List PExpr) (n : String) :
+    bindP (cp :: cps) (gp :: gps) n =
+      (bindP cps gps n).or (if cp = .var n then some gp else none) := by
+  simp only [bindP, List.zip_cons_cons, List.reverse_cons, List.find?_append]
+  cases h : List.find? (fun p => decide (p.1 = Expr.var n)) (cps.zip gps).reverse with
+  | some p => simp
+  | none =>
+    by_cases hc : cp = .var n <;> simp [hc]
+
+theorem lookup_variableExpansions (cps gps : List PExpr) (acc : List (String × PExpr)) (n : String) :
+    (variableExpansions cps gps acc).lookup n = (bindP cps gps n).or (acc.lookup n) := by
+  induction cps generalizing gps acc with
+  | nil => simp [variableExpansions, bindP]
+  | cons cp cps ih =>
+    cases gps with
+    | nil => cases cp <;> simp [variableExpansions, bindP]
+    | cons gp gps =>
+      rw [bindP_cons]
+      cases cp with
+      | var name =>
+        simp only [variableExpansions, ih, List.lookup_cons]
+        by_cases hn : n = name
+        · subst hn; cases bindP cps gps n <;> simp
+        · have : ¬ ((Expr.var name : PExpr) = Expr.var n) := by
+            intro h; injection h with h; exact hn h.symm
+          have hb : (n == name) = false := by simp [hn]
+          cases bindP cps gps n <;> simp [hb, this]
+      | _ => simp [variableExpansions, ih]
+
+theorem substituteQubitVariable_eq (σ : List (String × Qubit)) (q : Qubit) :
+    substituteQubitVariable σ q = substQ (fun n => σ.lookup n) q := by
+  rcases q with k | k | name <;> simp [substituteQubitVariable, substQ]
+  cases List.lookup name σ <;> simp
+
+theorem substFrame_eq (σ : List (String × Qubit)) (f : FrameIdentifier) :
+    substFrame σ f = mapFrameQ (substQ (fun n => σ.lookup n)) f := by
+  simp [substFrame, mapFrameQ, substituteQubitVariable_eq]
+
+/-- the code's qubit substitution visits every qubit position of a plain instruction -/
+theorem substituteQubitVariables_eq (σ : List (String × Qubit)) (i : Instruction) (h : plainB i = true) :
+    substituteQubitVariables σ i = mapQubits (substQ (fun n => σ.lookup n)) i := by
+  cases i <;> simp_all [substituteQubitVariables, mapQubits, plainB, substFrame_eq, mapGateQ,
+    substituteQubitVariable_eq]
+  rename_i r
+  rcases r with ⟨_ | q⟩ <;> simp [substituteQubitVariable_eq]
+
+/-- the code's parameter substitution visits every expression of a plain instruction -/
+theorem applyToExpressions_eq (f : PExpr → PExpr) (i : Instruction) (h : plainB i = true) :
+    applyToExpressions f i = mapExprs f i := by
+  cases i <;> simp_all [applyToExpressions, mapExprs, plainB, mapGateE]
+
+theorem plainB_mapQubits (f : Qubit → Qubit) (i : Instruction) (h : plainB i = true) :
+    plainB (mapQubits f i) = true := by
+  cases i <;> simp_all [mapQubits, plainB]
+
+theorem gateSubstCode_eq (c : CalDef) (g : Gate) (i : Instruction) (h : plainB i = true) :
+    gateSubstCode c g i = gateSubstSpec c g i := by
+  simp only [gateSubstCode, gateSubstSpec]
+  rw [substituteQubitVariables_eq _ _ h, applyToExpressions_eq _ _ (plainB_mapQubits _ _ h)]
+  congr 1
+  · funext x; simp [lookup_variableExpansions]
+  · congr 1; funext n; simp [lookup_qubitExpansions]
+
+/-! ### measurement calibrations -/
+
+theorem retarget_of_ne {formal : String} {actual r : MemRef} (h : r.name ≠ formal) :
+    retarget formal actual r = r := by simp [retarget, h]
+
+theorem mapAddr_retarget_id (formal : String) (actual : MemRef) (e : PExpr)
+    (h : ∀ r ∈ e.addrs, r.name ≠ formal) : mapAddr (retarget formal actual) e = e := by
+  induction e with
+  | address r => simp [mapAddr, retarget_of_ne (h r (by simp [Expr.addrs]))]
+  | call f e ih => simp [mapAddr, ih (by simpa [Expr.addrs] using h)]
+  | bin l o r ihl ihr =>
+    simp only [Expr.addrs, List.mem_append] at h
+    simp [mapAddr, ihl (fun r hr => h r (Or.inl hr)), ihr (fun r hr => h r (Or.inr hr))]
+  | number z => rfl
+  | pi => rfl
+  | pre o e ih => simp [mapAddr, ih (by simpa [Expr.addrs] using h)]
+  | var x => rfl
+
+theorem map_mapAddr_id (formal : String) (actual : MemRef) (es : List PExpr)
+    (h : ∀ e ∈ es, ∀ r ∈ e.addrs, r.name ≠ formal) : es.map (mapAddr (retarget formal actual)) = es := by
+  induction es with
+  | nil => rfl
+  | cons e es ih =>
+    simp only [List.map_cons, List.cons.injEq]
+    exact ⟨mapAddr_retarget_id _ _ _ (h e (List.mem_cons_self ..)),
+      ih (fun e' he' => h e' (List.mem_cons_of_mem _ he'))⟩
+
+theorem mapInvocation_id (formal : String) (actual : MemRef) (w : WaveformInvocation)
+    (h : ∀ kv ∈ w.parameters, ∀ r ∈ kv.2.addrs, r.name ≠ formal) :
+    mapInvocation (mapAddr (retarget formal actual)) w = w := by
+  obtain ⟨name, ps⟩ := w
+  simp only [mapInvocation, WaveformInvocation.mk.injEq, true_and]
+  induction ps with
+  | nil => rfl
+  | cons kv ps ih =>
+    simp only [List.map_cons, List.cons.injEq]
+    refine ⟨?_, ih (fun kv' h' => h kv' (List.mem_cons_of_mem _ h'))⟩
+    rw [mapAddr_retarget_id _ _ _ (h kv (List.mem_cons_self ..))]
+
+theorem mapArithOperand_id (formal : String) (actual : MemRef) (o : ArithmeticOperand)
+    (h : ∀ r ∈ refsOfArith o, r.name ≠ formal) : mapArithOperand (retarget formal actual) o = o := by
+  cases o <;> simp_all [mapArithOperand, refsOfArith, retarget]
+
+theorem mapBinaryOperand_id (formal : String) (actual : MemRef) (o : BinaryOperand)
+    (h : ∀ r ∈ refsOfBinary o, r.name ≠ formal) : mapBinaryOperand (retarget formal actual) o = o := by
+  cases o <;> simp_all [mapBinaryOperand, refsOfBinary, retarget]
+
+theorem mapComparisonOperand_id (formal : String) (actual : MemRef) (o : ComparisonOperand)
+    (h : ∀ r ∈ refsOfComparison o, r.name ≠ formal) :
+    mapComparisonOperand (retarget formal actual) o = o := by
+  cases o <;> simp_all [mapComparisonOperand, refsOfComparison, retarget]
+
+theorem mapCallArguments_id (formal : String) (actual : MemRef) (as : List UnresolvedCallArgument)
+    (h : ∀ a ∈ as, ∀ r ∈ refsOfCallArg a, r.name ≠ formal) :
+    as.map (mapCallArgument (retarget formal actual)) = as := by
+  induction as with
+  | nil => rfl
+  | cons a as ih =>
+    simp only [List.map_cons, List.cons.injEq]
+    refine ⟨?_, ih (fun a' h' => h a' (List.mem_cons_of_mem _ h'))⟩
+    have := h a (List.mem_cons_self ..)
+    cases a <;> simp_all [mapCallArgument, refsOfCallArg, retarget]
+
+theorem all_ne_iff (l : List MemRef) (f : String) :
+    (l.all (fun r => r.name != f)) = true ↔ ∀ r ∈ l, r.name ≠ f := by
+  simp
+
+/-- where the formal target occurs only in the positions the code rewrites, the code's rewriting is the
+specified one -/
+theorem measureTargetSubst_eq (f : String) (a : MemRef) (j : Instruction) (hp : plainB j = true)
+    (hc : formalCoveredB (some f) j = true) :
+    measureTargetSubst (some f) (some a) j = retargetInstr f a j := by
+  simp only [formalCoveredB, all_ne_iff] at hc
+  cases j <;> simp only [plainB] at hp <;>
+    simp only [measureTargetSubst, retargetInstr, retargetPragma, mapMemRefs, mapDirectRefs, mapExprs,
+      otherRefs, invocationAddrs, List.mem_cons, List.mem_flatMap, List.mem_append, forall_eq_or_imp,
+      List.not_mem_nil, false_imp_iff, implies_true, and_true, mapGateE] at hc ⊢
+  case arithmetic x => rw [retarget_of_ne hc.1, mapArithOperand_id _ _ _ hc.2]
+  case binaryLogic x => rw [retarget_of_ne hc.1, mapBinaryOperand_id _ _ _ hc.2]
+  case calibrationDefinition => cases hp
+  case call x => rw [mapCallArguments_id _ _ _ (fun a' ha r hr => hc r ⟨a', ha, hr⟩)]
+  case capture x =>
+    rw [mapInvocation_id _ _ _ (fun kv hkv r hr => hc r ⟨kv, hkv, hr⟩)]
+    by_cases hn : x.memoryReference.name = f <;> simp [hn, retarget]
+  case convert x => rw [retarget_of_ne hc.1, retarget_of_ne hc.2]
+  case comparison x =>
+    rw [retarget_of_ne hc.1, retarget_of_ne hc.2.1, mapComparisonOperand_id _ _ _ hc.2.2]
+  case delay x => rw [mapAddr_retarget_id _ _ _ hc]
+  case exchange x => rw [retarget_of_ne hc.1, retarget_of_ne hc.2]
+  case frameDefinition => cases hp
+  case gate x => rw [map_mapAddr_id _ _ _ (fun e he r hr => hc r ⟨e, he, hr⟩)]
+  case gateDefinition => cases hp
+  case jumpUnless x => rw [retarget_of_ne hc]
+  case jumpWhen x => rw [retarget_of_ne hc]
+  case load x => rw [retarget_of_ne hc.1, retarget_of_ne hc.2]
+  case measurement x =>
+    rcases x with ⟨nm, q, _ | t⟩
+    · rfl
+    · by_cases hn : t.name = f <;> simp [hn, retarget]
+  case move x => rw [retarget_of_ne hc.1, mapArithOperand_id _ _ _ hc.2]
+  case pragma x =>
+    by_cases h1 : x.name = "LOAD-MEMORY" <;> by_cases h2 : x.data = some f <;> simp [h1, h2]
+  case pulse x => rw [mapInvocation_id _ _ _ (fun kv hkv r hr => hc r ⟨kv, hkv, hr⟩)]
+  case rawCapture x =>
+    rw [mapAddr_retarget_id _ _ _ hc]
+    by_cases hn : x.memoryReference.name = f <;> simp [hn, retarget]
+  case setFrequency x => rw [mapAddr_retarget_id _ _ _ hc]
+  case setPhase x => rw [mapAddr_retarget_id _ _ _ hc]
+  case setScale x => rw [mapAddr_retarget_id _ _ _ hc]
+  case shiftFrequency x => rw [mapAddr_retarget_id _ _ _ hc]
+  case shiftPhase x => rw [mapAddr_retarget_id _ _ _ hc]
+  case store x => rw [retarget_of_ne hc.1, mapArithOperand_id _ _ _ hc.2]
+  case unaryLogic x => rw [retarget_of_ne hc]
+  case waveformDefinition x => rw [map_mapAddr_id _ _ _ (fun e he r hr => hc r ⟨e, he, hr⟩)]
+
+theorem measureTargetSubst_none (formal : Option String) (j : Instruction) :
+    measureTargetSubst formal none j = j := by
+  cases j <;> simp only [measureTargetSubst] <;> try rfl
+  all_goals (repeat' split) <;> rfl
+
+theorem otherRefs_mapQubits (f : Qubit → Qubit) (i : Instruction) (h : plainB i = true) :
+    otherRefs (mapQubits f i) = otherRefs i := by
+  cases i <;> simp_all [mapQubits, otherRefs, plainB, mapGateQ]
+
+theorem measLookup_eq (c : MCalDef) (m : Measurement) (n : String) :
+    (measQubitExpansions c.identifier.qubit m.qubit).lookup n = measBindQ c m n := by
+  unfold measBindQ measQubitExpansions
+  rcases hq : c.identifier.qubit with k | k | name <;> simp
+  by_cases hn : n = name
+  · subst hn; simp
+  · have : ¬ name = n := fun h => hn h.symm
+    simp [hn, this]
+
+/-- the code's instantiation of a measurement calibration's body instruction is the specified one when the
+instruction is plain and uses the formal target only where the code rewrites it -/
+theorem measSubstCode_eq (c : MCalDef) (m : Measurement) (i : Instruction) (hp : plainB i = true)
+    (hc : formalCoveredB c.identifier.target i = true)
+    (hm : c.identifier.target.isSome = m.target.isSome) :
+    measSubstCode c m i = measSubstSpec c m i := by
+  simp only [measSubstCode, measSubstSpec]
+  rw [substituteQubitVariables_eq _ _ hp]
+  have hσ : (fun n => List.lookup n (measQubitExpansions c.identifier.qubit m.qubit)) = measBindQ c m := by
+    funext n; exact measLookup_eq c m n
+  rw [hσ]
+  cases hf : c.identifier.target with
+  | none =>
+    cases ha : m.target with
+    | none => simp [measureTargetSubst_none]
+    | some a => simp [hf, ha] at hm
+  | some f =>
+    cases ha : m.target with
+    | none => simp [hf, ha] at hm
+    | some a =>
+      simp only []
+      apply measureTargetSubst_eq _ _ _ (plainB_mapQubits _ _ hp)
+      rw [hf] at hc
+      simpa [formalCoveredB, otherRefs_mapQubits _ _ hp] using hc
+end QV.C17
